@@ -245,7 +245,18 @@ def runtime_namespace(extra=None):
                     st.append(b.subregion)
         return out
 
-    ns.update(fwd_rank=fwd_rank, hier_names=hier_names)
+    def region_names(sub):
+        out, st = set(), [sub]
+        while st:
+            g = st.pop()
+            for k, b in g.graph.items():
+                if type(b).__name__ == 'RegionBlock':
+                    out.add(b.name)
+                    if b.subregion is not None:
+                        st.append(b.subregion)
+        return out
+
+    ns.update(fwd_rank=fwd_rank, hier_names=hier_names, region_names=region_names)
     ns.update(dominates=dominates, dgfp=dgfp, tmap=LazyMap, identical=lambda a, b: a == b, same_value=lambda a, b: a == b)
     import ast as _pyast
     ns.update(isa=isinstance, ast=_pyast)
